@@ -19,6 +19,7 @@ pub const FAULTS: &[&str] = &[
     "invalid-utf8-in-ignored-member",
     "not-an-object",
     "long-non-ascii-text-frame",
+    "empty-frames",
     "truncated-frame-then-eof",
     "eof-mid-burst",
     "read-error",
@@ -102,6 +103,8 @@ fn fault_frame(rng: &mut Rng, kind: &str, client: u32) -> Vec<u8> {
             }
             .into_bytes()
         }
+        // stray terminators: one to three empty frames (the trailing NUL is added below)
+        "empty-frames" => vec![0; rng.below(3)],
         _ => unreachable!("{kind}"),
     };
     // fault frames are NUL-terminated like any other; garbage may contain NULs of its own
@@ -421,9 +424,128 @@ fn check(b: &Built, rep: &mut Report) {
     }
 }
 
+/// A long history: `n` faulty clients come and go one after the other (fault kinds in rotation) while a
+/// resident healthy client keeps calling; at the end a newcomer connects. The server must still accept and
+/// serve (anything that leaks per lost client - a slot, a list entry, a counter - shows up here).
+pub fn churn(rng: &mut Rng, n: usize, wake: bool) -> Scenario {
+    let mut scn = Scenario { wake, lean: true, ..Default::default() };
+    let resident = 0usize;
+    let pings = 8usize;
+    scn.conns.push(ConnScn {
+        calls: (0..pings).map(|j| CallSpec { kind: Kind::Echo, seq: 1 + j as u32, oneway: false, more: false, payload: format!("ping{j}") }).collect(),
+        ..Default::default()
+    });
+    let rstream = scn.conns[0].stream(0);
+    scn.conns[0].cuts = frame_cuts(&rstream);
+    let q = |ev: Ev| Step { ev, mode: Mode::Quiesce };
+    let b = |ev: Ev| Step { ev, mode: Mode::Batch };
+    scn.steps.push(q(Ev::Accept(resident)));
+    let every = (n / pings).max(1);
+    let mut pinged = 0;
+    for k in 0..n {
+        let i = scn.conns.len();
+        let client = i as u32;
+        let sub = CallSpec { kind: Kind::Sub, seq: 1, oneway: false, more: true, payload: String::new() };
+        let echo = CallSpec { kind: Kind::Echo, seq: 2, oneway: false, more: false, payload: "x".into() };
+        let mut c = ConnScn { faulty: true, ..Default::default() };
+        match k % 6 {
+            0 => {
+                // subscriber whose first stream item is ready at once and can not be written
+                c.raw = Some(sub.bytes(client));
+                c.fail_write_at = Some(0);
+                scn.steps.push(b(Ev::Accept(i)));
+                scn.steps.push(b(Ev::Item { client, seq: 1, n: 0, continues: Some(true) }));
+                scn.steps.push(q(Ev::Deliver(i)));
+            }
+            1 => {
+                // subscriber that becomes unwritable at a later item
+                c.raw = Some(sub.bytes(client));
+                c.fail_write_at = Some(1);
+                scn.steps.push(q(Ev::Accept(i)));
+                scn.steps.push(q(Ev::Deliver(i)));
+                scn.steps.push(q(Ev::Item { client, seq: 1, n: 0, continues: Some(true) }));
+                scn.steps.push(q(Ev::Item { client, seq: 1, n: 1, continues: Some(true) }));
+            }
+            2 => {
+                c.raw = Some(fault_frame(rng, "garbage-bytes", client));
+                scn.steps.push(b(Ev::Accept(i)));
+                scn.steps.push(q(Ev::Deliver(i)));
+            }
+            3 => {
+                // a call whose reply can not be written
+                c.raw = Some(echo.bytes(client));
+                c.fail_write_at = Some(0);
+                scn.steps.push(q(Ev::Accept(i)));
+                scn.steps.push(q(Ev::Deliver(i)));
+            }
+            4 => {
+                c.raw = Some(echo.bytes(client));
+                scn.steps.push(b(Ev::Accept(i)));
+                scn.steps.push(b(Ev::Deliver(i)));
+                scn.steps.push(q(if k % 12 == 4 { Ev::Eof(i) } else { Ev::RdErr(i) }));
+            }
+            _ => {
+                // subscriber that hangs up while its stream is open, then the stream ends
+                c.raw = Some(sub.bytes(client));
+                scn.steps.push(q(Ev::Accept(i)));
+                scn.steps.push(q(Ev::Deliver(i)));
+                scn.steps.push(b(Ev::Eof(i)));
+                scn.steps.push(q(Ev::Close { client, seq: 1 }));
+            }
+        }
+        scn.conns.push(c);
+        if k % every == every - 1 && pinged + 1 < pings {
+            scn.steps.push(q(Ev::Deliver(resident)));
+            pinged += 1;
+        }
+    }
+    // the newcomer
+    let i = scn.conns.len();
+    scn.conns.push(ConnScn { calls: vec![CallSpec { kind: Kind::Echo, seq: 1, oneway: false, more: false, payload: "newcomer".into() }], ..Default::default() });
+    scn.steps.push(q(Ev::Accept(i)));
+    scn.steps.push(q(Ev::Deliver(i)));
+    while pinged < pings {
+        scn.steps.push(q(Ev::Deliver(resident)));
+        pinged += 1;
+    }
+    scn
+}
+
+fn check_churn(scn: &Scenario, n: usize, rep: &mut Report) {
+    rep.eval(scn.hash());
+    rep.count("churn_histories");
+    rep.add("churn_faulty_clients", n as u64);
+    let mut j = scn.to_json("c09");
+    // the replay file holds the recipe, not thousands of connections
+    j = json!({"monitor": "c09", "churn": n, "wake": scn.wake, "first_conns": j["conns"].as_array().map(|a| a.iter().take(3).cloned().collect::<Vec<_>>())});
+    let out = match vnet::catch(|| run_world(&scn.world())) {
+        Err(p) => {
+            rep.violation("C09/panic-in-server", format!("panic: {p}; churn of {n} faulty clients"), j);
+            return;
+        }
+        Ok(o) => o,
+    };
+    if let Some(e) = &out.server_exit {
+        rep.violation("C09/server-stopped-because-of-one-client", format!("Server::run returned {e}; churn of {n} faulty clients"), j);
+        return;
+    }
+    let mut stats = std::collections::BTreeMap::new();
+    for (sig, detail) in check_reference("C09", scn, &out, &mut stats) {
+        rep.violation(&format!("{sig}:after-many-lost-clients"), format!("{detail}; churn of {n} faulty clients (kinds in rotation: unwritable subscriber at the first / a later item, garbage, unwritable reply, EOF / read error, hang-up during a stream), a resident client pinging throughout and a newcomer at the end{}", if scn.wake { " [wake-driven]" } else { "" }), j.clone());
+    }
+    let still_open = out.checkpoints.last().map(|cp| cp.dropped.iter().filter(|d| !**d).count()).unwrap_or(0);
+    rep.max("max_connections_still_held_after_churn", still_open as u64);
+}
+
 pub fn run(cfg: &Cfg) -> Report {
     let mut rep = Report::new("C09", "c09");
     if let Some(r) = &cfg.replay {
+        if let Some(n) = r.get("churn").and_then(|n| n.as_u64()) {
+            let mut rng = cfg.rng(92);
+            let scn = churn(&mut rng, n as usize, r["wake"].as_bool().unwrap_or(false));
+            check_churn(&scn, n as usize, &mut rep);
+            return rep;
+        }
         let scn = Scenario::from_json(r);
         let b = Built { faulty: r["faulty"].as_u64().unwrap_or(0) as usize, chains: vec![], kind: "replayed", pos: 0, scn };
         check(&b, &mut rep);
@@ -484,6 +606,13 @@ pub fn run(cfg: &Cfg) -> Report {
                 }
             }
         }
+    }
+    // long histories of lost clients (one shard each for the two execution modes)
+    if !miri && !small && cfg.shard < 2 {
+        let mut rng = cfg.rng(92);
+        let n = if cfg.thorough { 70_000 } else { 9_000 };
+        let scn = churn(&mut rng, n, cfg.shard == 1);
+        check_churn(&scn, n, &mut rep);
     }
     rep
 }
